@@ -1,0 +1,40 @@
+//go:build verif
+
+package ship
+
+import "time"
+
+// Hooks for the verification harness in /verif. Compiled only with -tags verif.
+
+// VerifSnapshot returns the handshake state, the timer flag and type, the number of
+// buffered SPINE payloads and whether the SPINE reader is installed.
+func (c *ShipConnection) VerifSnapshot() (state uint, timerRunning bool, timerType uint, buffered int, readerSet bool) {
+	state = uint(c.getState())
+	timerRunning = c.getHandshakeTimerRunning()
+	timerType = uint(c.getHandshakeTimerType())
+	c.bufferMux.Lock()
+	buffered = len(c.spineBuffer)
+	c.bufferMux.Unlock()
+	readerSet = c.dataReader != nil
+	return
+}
+
+// VerifFireTimeout does what the timer goroutine does when its duration elapses,
+// if a timer is armed. It reports whether a timeout was delivered.
+func (c *ShipConnection) VerifFireTimeout() bool {
+	if !c.getHandshakeTimerRunning() {
+		return false
+	}
+	c.setHandshakeTimerRunning(false)
+	c.handleState(true, nil)
+	return true
+}
+
+// VerifArmTimer and VerifStopTimer expose the timer primitives (C14 stress).
+func (c *ShipConnection) VerifArmTimer(timerType uint, millis int) {
+	c.setHandshakeTimer(timeoutTimerType(timerType), time.Duration(millis)*time.Millisecond)
+}
+
+func (c *ShipConnection) VerifStopTimer() {
+	c.stopHandshakeTimer()
+}
